@@ -22,8 +22,9 @@ Section Kinds.
 Variable nd : list (N * N).
 Variable oc : octx.
 Variable tc : tctx.
+Variable sk : bool.
 Notation opq := (shipped_opq_with nd).
-Notation A := (approx opq oc tc).
+Notation A := (approxg opq oc tc sk).
 
 Ltac leaf_sound :=
   let n := fresh "n" in let v := fresh "v" in
@@ -46,7 +47,7 @@ Lemma s_int n o : is_int (value_of oc o) = true -> A n o c_int = true.
 Proof. revert n o. apply via_sound; [reflexivity|]. leaf_sound. reflexivity. Qed.
 Lemma s_real n o : (match value_of oc o with OReal _ _ => true | _ => false end) = true -> A n o c_real = true.
 Proof.
-  revert n o. apply (via_sound opq oc tc (fun v => match v with OReal _ _ => true | _ => false end)); [reflexivity|].
+  revert n o. apply (via_sound opq oc tc sk (fun v => match v with OReal _ _ => true | _ => false end)); [reflexivity|].
   leaf_sound. reflexivity.
 Qed.
 Lemma s_dict n o : is_dict (value_of oc o) = true -> A n o c_dict = true.
@@ -102,16 +103,16 @@ Proof.
   - apply s_number; auto.
   - apply s_dict; auto.
   - (* VIDict *)
-    revert Hv. apply (via_sound_req opq oc tc is_dict); [reflexivity| |auto].
+    revert Hv. apply (via_sound_req opq oc tc sk is_dict); [reflexivity| |auto].
     clear. leaf_sound. reflexivity.
   - apply s_array; auto.
   - apply (s_arr_of is_dict); auto. intros; apply s_dict; auto.
   - apply s_stream; auto.
-  - revert Hv. apply (via_sound_req opq oc tc is_stream); [reflexivity| |auto].
+  - revert Hv. apply (via_sound_req opq oc tc sk is_stream); [reflexivity| |auto].
     clear. leaf_sound. reflexivity.
   - (* VRect *)
     revert n o Hv Hi. intros n o Hv _. revert n o Hv.
-    apply (via_sound opq oc tc (fun v => match v with OArr l => Nat.eqb (len l) 4 && forallb (via oc is_num) l | _ => false end));
+    apply (via_sound opq oc tc sk (fun v => match v with OArr l => Nat.eqb (len l) 4 && forallb (via oc is_num) l | _ => false end));
       [reflexivity|].
     leaf_sound. apply andb_true_iff in H0 as [H1 H2]. rewrite H1. simpl.
     eapply forallb_mono; [|exact H2]. intros x _ Hx. apply s_number. exact Hx.
@@ -136,14 +137,14 @@ Proof.
     + rewrite (s_dict n o Hv). apply orb_true_r.
   - (* VResources *)
     revert n o Hv Hi. intros n o Hv _. revert n o Hv.
-    apply (via_sound opq oc tc (val_ok oc VResources)); [reflexivity|].
+    apply (via_sound opq oc tc sk (val_ok oc VResources)); [reflexivity|].
     leaf_sound. rewrite andb_true_r. apply ents_ok_forall. intros e He.
     apply in_map_iff in He as [[k b] [<- Hkb]]. simpl. simpl in H0.
     rewrite forallb_forall in H0. specialize (H0 _ Hkb). unfold sub_ok in H0. simpl in H0.
     destruct (dict_get l k); auto. destruct b; [apply s_dict | apply s_array]; exact H0.
   - (* VNameDict *)
     revert n o Hv Hi. intros n o Hv _. revert n o Hv.
-    apply (via_sound opq oc tc (val_ok oc VNameDict)); [reflexivity|].
+    apply (via_sound opq oc tc sk (val_ok oc VNameDict)); [reflexivity|].
     leaf_sound. rewrite andb_true_r. apply ents_ok_forall. intros e He.
     apply in_map_iff in He as [k [<- Hk]]. simpl. simpl in H0.
     rewrite forallb_forall in H0. specialize (H0 _ Hk). unfold sub_ok in H0.
@@ -216,44 +217,50 @@ Proof.
 Qed.
 
 (* ---------- completeness of every kind ---------- *)
+Lemma kind_not_any kd : kind_checked kd = true -> is_any tc (chk_of_kind kd) = false.
+Proof. destruct kd; try discriminate; reflexivity. Qed.
+
+(* in the skipping reading the entries of the name dictionary (type Any) are not looked at, so only the
+   other kinds are complete there *)
 Lemma kind_complete kd v :
+  sk = false \/ kind_checked kd = true ->
   is_refb v = false -> val_ok oc kd v = false -> A 6 v (chk_of_kind kd) = false.
 Proof.
-  intros Hd Hv. destruct kd; simpl in Hv; cbv beta iota delta [chk_of_kind].
-  - apply (A_false_le _ _ _ 1); [lia|]. apply c_prim_direct; auto; destruct v; try reflexivity; discriminate.
-  - apply (A_false_le _ _ _ 1); [lia|]. apply c_prim_direct; auto; destruct v; try reflexivity; discriminate.
-  - apply (A_false_le _ _ _ 1); [lia|]. apply c_prim_direct; auto; destruct v; try reflexivity; discriminate.
-  - apply (A_false_le _ _ _ 1); [lia|]. apply c_prim_direct; auto; destruct v; try reflexivity; discriminate.
+  intros Hsk Hd Hv. destruct kd; simpl in Hv; cbv beta iota delta [chk_of_kind].
+  - apply (A_false_le _ _ _ _ 1); [lia|]. apply c_prim_direct; auto; destruct v; try reflexivity; discriminate.
+  - apply (A_false_le _ _ _ _ 1); [lia|]. apply c_prim_direct; auto; destruct v; try reflexivity; discriminate.
+  - apply (A_false_le _ _ _ _ 1); [lia|]. apply c_prim_direct; auto; destruct v; try reflexivity; discriminate.
+  - apply (A_false_le _ _ _ _ 1); [lia|]. apply c_prim_direct; auto; destruct v; try reflexivity; discriminate.
   - (* VNumber *)
-    apply (A_false_le _ _ _ 3); [lia|]. apply c_number_via. rewrite value_of_direct; auto.
-  - apply (A_false_le _ _ _ 1); [lia|]. apply c_dict_direct; auto.
+    apply (A_false_le _ _ _ _ 3); [lia|]. apply c_number_via. rewrite value_of_direct; auto.
+  - apply (A_false_le _ _ _ _ 1); [lia|]. apply c_dict_direct; auto.
   - (* VIDict: a direct value fails the required indirection whatever it is *)
-    apply (A_false_le _ _ _ 1); [lia|]. rewrite A_S, A1_direct by auto. reflexivity.
-  - apply (A_false_le _ _ _ 1); [lia|]. apply c_array_direct; auto.
+    apply (A_false_le _ _ _ _ 1); [lia|]. rewrite A_S, A1_direct by auto. reflexivity.
+  - apply (A_false_le _ _ _ _ 1); [lia|]. apply c_array_direct; auto.
   - (* VArrDict *)
-    apply (A_false_le _ _ _ 3); [lia|]. destruct (is_arr v) eqn:Ea.
+    apply (A_false_le _ _ _ _ 3); [lia|]. destruct (is_arr v) eqn:Ea.
     + destruct v; try discriminate. apply forallb_false_exists in Hv as [x [Hx Hf]].
       eapply c_arr_member; eauto. apply c_dict_via. exact Hf.
     + apply c_not_array; auto.
-  - apply (A_false_le _ _ _ 1); [lia|]. apply c_stream_direct; auto.
-  - apply (A_false_le _ _ _ 1); [lia|]. rewrite A_S, A1_direct by auto. reflexivity.
+  - apply (A_false_le _ _ _ _ 1); [lia|]. apply c_stream_direct; auto.
+  - apply (A_false_le _ _ _ _ 1); [lia|]. rewrite A_S, A1_direct by auto. reflexivity.
   - (* VRect *)
-    apply (A_false_le _ _ _ 4); [lia|]. destruct (is_arr v) eqn:Ea.
+    apply (A_false_le _ _ _ _ 4); [lia|]. destruct (is_arr v) eqn:Ea.
     + destruct v; try discriminate. apply andb_false_iff in Hv as [Hv|Hv].
       * unfold c_plain. rewrite A_S, A1_direct by reflexivity. simpl. rewrite Hv. reflexivity.
       * apply forallb_false_exists in Hv as [x [Hx Hf]].
         eapply c_arr_member; eauto. apply c_number_via. exact Hf.
     + apply c_not_array; auto.
   - (* VDate *)
-    apply (A_false_le _ _ _ 1); [lia|]. rewrite A_S, A1_direct by auto. simpl.
+    apply (A_false_le _ _ _ _ 1); [lia|]. rewrite A_S, A1_direct by auto. simpl.
     rewrite opq0, Hv. reflexivity.
   - (* VNameIn *)
-    apply (A_false_le _ _ _ 1); [lia|]. unfold c_name_in. rewrite A_S, A1_direct by auto. simpl.
+    apply (A_false_le _ _ _ _ 1); [lia|]. unfold c_name_in. rewrite A_S, A1_direct by auto. simpl.
     destruct v; try reflexivity. simpl in Hv. rewrite existsb_sort_names, Hv. reflexivity.
   - (* VContents *)
-    apply (A_false_le _ _ _ 4); [lia|]. unfold c_plain at 1. rewrite A_disj2.
+    apply (A_false_le _ _ _ _ 4); [lia|]. unfold c_plain at 1. rewrite A_disj2.
     assert (H1 : A 3 v c_stream = false).
-    { apply (A_false_le _ _ _ 1); [lia|]. apply c_stream_direct; auto. destruct v; try reflexivity; discriminate. }
+    { apply (A_false_le _ _ _ _ 1); [lia|]. apply c_stream_direct; auto. destruct v; try reflexivity; discriminate. }
     assert (H2 : A 3 v (c_plain (TArr c_stream None)) = false).
     { destruct (is_arr v) eqn:Ea.
       - destruct v; try discriminate. apply forallb_false_exists in Hv as [x [Hx Hf]].
@@ -261,28 +268,32 @@ Proof.
       - apply c_not_array; auto. }
     rewrite H1, H2. apply andb_false_r.
   - (* VOpenAction *)
-    apply (A_false_le _ _ _ 2); [lia|]. unfold c_plain at 1. rewrite A_disj2.
+    apply (A_false_le _ _ _ _ 2); [lia|]. unfold c_plain at 1. rewrite A_disj2.
     apply orb_false_iff in Hv as [Ha Hb].
     rewrite (c_array_direct v), (c_dict_direct v) by auto. apply andb_false_r.
   - (* VResources *)
-    apply (A_false_le _ _ _ 3); [lia|]. unfold c_plain. destruct (is_dict v) eqn:Ed.
+    apply (A_false_le _ _ _ _ 3); [lia|]. unfold c_plain. destruct (is_dict v) eqn:Ed.
     + destruct v; try discriminate. rewrite A_dict_direct. simpl negb. simpl pred_ok. simpl andb.
       apply forallb_false_exists in Hv as [[k b] [Hkb Hf]]. unfold sub_ok in Hf. simpl in Hf.
-      apply (ents_ok_false _ _ _ (opt k (if b then c_dict else c_array))).
+      apply (ents_ok_false _ _ _ _ _ (opt k (if b then c_dict else c_array))).
       * apply in_map_iff. exists (k, b). auto.
-      * simpl. destruct (dict_get l k); [|discriminate].
-        destruct b; [apply c_dict_via | apply c_array_via]; exact Hf.
+      * simpl. destruct (dict_get l k); [|discriminate]. split.
+        -- destruct b; apply andb_false_r.
+        -- destruct b; [apply c_dict_via | apply c_array_via]; exact Hf.
     + rewrite A_S, A1_direct by auto. simpl. destruct v; try discriminate; reflexivity.
   - (* VNameDict *)
-    apply (A_false_le _ _ _ 3); [lia|]. unfold c_plain. destruct (is_dict v) eqn:Ed.
+    apply (A_false_le _ _ _ _ 3); [lia|]. unfold c_plain. destruct (is_dict v) eqn:Ed.
     + destruct v; try discriminate. rewrite A_dict_direct. simpl negb. simpl pred_ok. simpl andb.
       apply forallb_false_exists in Hv as [k [Hk Hf]]. unfold sub_ok in Hf.
-      apply (ents_ok_false _ _ _ (opt k c_nametree)).
+      destruct Hsk as [Hsk|Hsk]; [|discriminate].
+      apply (ents_ok_false _ _ _ _ _ (opt k c_nametree)).
       * apply in_map_iff. exists k. auto.
-      * simpl. destruct (dict_get l k); [|discriminate]. apply c_nametree_via. exact Hf.
+      * simpl. destruct (dict_get l k); [|discriminate]. split.
+        -- rewrite Hsk. reflexivity.
+        -- apply c_nametree_via. exact Hf.
     + rewrite A_S, A1_direct by auto. simpl. destruct v; try discriminate; reflexivity.
   - (* VNumTree *)
-    apply (A_false_le _ _ _ 1); [lia|]. rewrite A_S, A1_direct by auto. simpl.
+    apply (A_false_le _ _ _ _ 1); [lia|]. rewrite A_S, A1_direct by auto. simpl.
     rewrite opq2, Hv. reflexivity.
 Qed.
 
